@@ -213,6 +213,17 @@ fn adaptors<I: Iterator>(o: &mut Obs, name: &'static str, t: &mut Tape, mut it: 
             return;
         }
     }
+    // by value: the only way to reach an overridden `fold` / `count` / `last`
+    match t.choose(4) {
+        1 => consumed += it.take(bound + 1).count(),
+        2 => consumed += it.fold(0usize, |a, _| if a > bound { a } else { a + 1 }),
+        3 => consumed += it.last().is_some() as usize,
+        _ => {}
+    }
+    if consumed > bound {
+        o.set_fail(FailKind::IterBound, name, format!("iterator driven through adaptors yielded more than {bound} items"));
+        return;
+    }
     o.res(consumed as u64);
 }
 
